@@ -306,7 +306,7 @@ func c20Step(st c20State, path []string, op string, memory bool) (next c20State,
 			o.Sig, o.Detail = sig("stored", "reloaded-contents"), fmt.Sprintf("before %s: reloaded container reports %v, model %s", op, logs, st.M.sum(k))
 			return
 		}
-		if bad := c20CompareOuts(st.M, logs[1:], exp.Outs); bad != "" {
+		if bad := c20CompareOuts(st.M, logs[1:], exp.Outs, code); bad != "" {
 			o.Sig, o.Detail = sig("stored", "wrong-"+bad), fmt.Sprintf("%s on %d elements: got %v\nmodel %v", op, n, short(strings.Join(logs[1:], " | "), 1500), short(strings.Join(exp.Outs, " | "), 1500))
 			return
 		}
@@ -376,7 +376,7 @@ func c20Step(st c20State, path []string, op string, memory bool) (next c20State,
 	if !ok || len(outs) < 1 {
 		return next, c20Outcome{Harness: true, Detail: "memory script outputs have unexpected shape"}
 	}
-	if bad := c20CompareOuts(st.M, outs[:len(outs)-1], mexp.Outs); bad != "" {
+	if bad := c20CompareOuts(st.M, outs[:len(outs)-1], mexp.Outs, code); bad != "" {
 		o.Sig, o.Detail = sig("memory", "wrong-"+bad), fmt.Sprintf("path %v: got %v\nmodel %v", full, short(strings.Join(outs, " | "), 1500), short(strings.Join(mexp.Outs, " | "), 1500))
 		return
 	}
